@@ -17,6 +17,7 @@ mod named;
 mod observe;
 mod oracle;
 mod props;
+mod session;
 mod trace;
 mod util;
 
@@ -46,9 +47,25 @@ fn main() {
             let t0 = std::time::Instant::now();
             if cmd == "replay" {
                 let rep = util::Report::new(&id);
-                if !props::run(&id, &o, &tier, seed, &rep) {
-                    eprintln!("TOOLERROR unknown property {}", id);
-                    std::process::exit(2);
+                let ran = std::panic::catch_unwind(std::panic::AssertUnwindSafe(|| props::run(&id, &o, &tier, seed, &rep)));
+                match ran {
+                    Ok(true) => {}
+                    Ok(false) => {
+                        eprintln!("TOOLERROR unknown property {}", id);
+                        std::process::exit(2);
+                    }
+                    Err(_) => {
+                        // safety net: a call into ckc-rs unwound at a site the replay does not guard individually
+                        match util::last_panic_in_code_under_test() {
+                            Some((file, line, msg)) => rep.violation(json!({"property": id, "why": "a call into ckc-rs unwound",
+                                "event": {"op": "reset"}, "expected": {}, "panic": msg, "at": format!("{}:{}", file, line)})),
+                            None => {
+                                let last = util::LAST_PANIC.lock().ok().and_then(|g| g.clone());
+                                eprintln!("TOOLERROR the harness itself panicked: {:?}", last);
+                                std::process::exit(2);
+                            }
+                        }
+                    }
                 }
                 let mut j = rep.to_json();
                 j["wall_s"] = json!(t0.elapsed().as_secs_f64());
@@ -71,11 +88,28 @@ fn main() {
                 }
             }
         }
+        "panic-probe" => {
+            // self-test of the panic classification: an unvalidated ranking of non-card words indexes out of range
+            let r = util::guarded(|| hands::rank_value(&hands::Hand::from_words(&[u32::MAX; 5])));
+            let last = util::LAST_PANIC.lock().unwrap().clone();
+            let inside = util::last_panic_in_code_under_test().is_some();
+            println!("{:?} {:?} in_code_under_test={:?}", r, last, inside);
+        }
+        "session" => {
+            // replay TLC-generated behaviours of spec/CkcSession.tla (one JSON array per line)
+            let rep = session::run(&args[2]);
+            println!("{}", serde_json::to_string(&rep).unwrap());
+            let failed = rep["failures"].as_array().map(|a| !a.is_empty()).unwrap_or(false);
+            std::process::exit(if failed { 1 } else { 0 });
+        }
         "replay-case" => {
             let s = std::fs::read_to_string(&args[2]).expect("read replay file");
             let case: Value = serde_json::from_str(&s).expect("parse replay file");
             let observed = observe::observe(&case["event"]);
-            let mut still = false;
+            let mut still = observed.get("panic").is_some();
+            if still {
+                println!("the call unwound: {}", observed["panic"]);
+            }
             if let Some(exp) = case["expected"].as_object() {
                 for (k, v) in exp {
                     if let Some(base) = k.strip_suffix("_not") {
